@@ -195,6 +195,17 @@ func (x *Exec) callContract(fi *FuncInfo, con *Contract, recv *Val, args []Val, 
 			names[p.Name()] = args[i]
 		}
 	}
+	// the callee's contract may still use the names its parameters had when the lock was written
+	for oldName, obj := range x.g.renameMap(fi) {
+		for i := 0; i < sig.Params().Len() && i < len(args); i++ {
+			if sig.Params().At(i) == obj {
+				names[oldName] = args[i]
+			}
+		}
+		if recv != nil && sig.Recv() == obj {
+			names[oldName] = *recv
+		}
+	}
 	cenv := &Env{contract: true, names: names, pkg: fi.Pkg.Types}
 	ordinal := x.ord[node]
 	short := fi.Key[strings.Index(fi.Key, ".")+1:]
